@@ -22,6 +22,7 @@ def check_render(seq, R, proj):
     out = []
     names = list(seq._schedule.keys())
     scheds = [seq._schedule[n] for n in names]
+    rids = list(seq.register.qubit_ids)      # position k <-> id rids[k - 1]
     try:
         samples = sampler.sample(seq)
     except Exception as e:  # noqa: BLE001
@@ -99,7 +100,7 @@ def check_render(seq, R, proj):
             got[("G", basis, 0)] = [np.asarray(d["amp"], float), np.asarray(d["det"], float)]
         for basis, dq in nd.get("Local", {}).items():
             for qq, d in dq.items():
-                got[("L", basis, int(str(qq)[1:]))] = [np.asarray(d["amp"], float), np.asarray(d["det"], float)]
+                got[("L", basis, rids.index(qq) + 1)] = [np.asarray(d["amp"], float), np.asarray(d["det"], float)]
         bad = None
         # don't-care band: a channel still in EOM mode that is shorter than the longest one is
         # padded with its off-detuning; whether that padding belongs to the per-atom view is not
@@ -127,6 +128,52 @@ def check_render(seq, R, proj):
                 break
         if bad:
             out.append(("C06.NestedDict", bad))
+        # ---- phase of the per-atom view: while a pulse of non-zero amplitude plays, its bucket carries the
+        # phase of that pulse.  Compared wherever no OTHER channel contributes a non-zero phase to the bucket
+        # (the implementation sums the phase arrays of all contributing channels: recorded under C05).
+        if not bad:
+            chphase = []
+            for j in range(len(scheds)):
+                pj = _arr(samples.samples_list[j].phase)
+                if len(pj) < maxdur:
+                    pj = np.concatenate([pj, np.full(maxdur - len(pj), pj[-1] if len(pj) else 0.0)])
+                chphase.append(pj)
+            contrib = {}
+            for (bucket, basis, q, i, k, a, b, w2) in R[key]:
+                contrib.setdefault((bucket, basis, q), []).append((i, k, a, b))
+            gotp = {}
+            for basis, d in nd.get("Global", {}).items():
+                gotp[("G", basis, 0)] = np.asarray(d["phase"], float)
+            for basis, dq in nd.get("Local", {}).items():
+                for qq, d in dq.items():
+                    gotp[("L", basis, rids.index(qq) + 1)] = np.asarray(d["phase"], float)
+            pbad = None
+            for kk, lst in contrib.items():
+                g = gotp.get(kk)
+                if g is None or len(g) != maxdur:
+                    continue
+                for (i, k, a, b) in lst:
+                    sl = scheds[i - 1].slots[k - 1]
+                    obj = scheds[i - 1].channel_obj
+                    if type(obj).__name__ == "DMM" or not np.any(_arr(sl.type.amplitude.samples) != 0):
+                        continue
+                    # any other channel of the basis whose (held) phase is non-zero there may be summed in
+                    other = np.zeros(b - a)
+                    for j, sc in enumerate(scheds):
+                        oj = sc.channel_obj
+                        if j != i - 1 and oj.basis == kk[1] and type(oj).__name__ != "DMM":
+                            other += np.abs(chphase[j][a:b])
+                    free = other == 0
+                    ph = float(sl.type.phase)
+                    if np.any(free) and not np.allclose(g[a:b][free], ph, rtol=0, atol=1e-9):
+                        t = a + int(np.argmax(free & (np.abs(g[a:b] - ph) > 1e-9)))
+                        pbad = {"clause": "phase", "all_local": all_local, "bucket": kk[0], "basis": kk[1],
+                                "atom": kk[2], "t": t, "got": float(g[t]), "expected": ph}
+                        break
+                if pbad:
+                    break
+            if pbad:
+                out.append(("C06.NestedDict", pbad))
     out += check_modsampling(seq, proj)
     return out
 
@@ -156,7 +203,15 @@ def check_modsampling(seq, proj):
             if len(_arr(sm.samples_list[i].det)) != got or len(_arr(sm.samples_list[i].phase)) != got:
                 got = -1
             want = decl_dur_fall(ch)
-            if got != want:
+            # which fall time a pulse next to an EOM block has (the channel's or the EOM's) is the reading left
+            # open in DESIGN 12.2: on a channel that has used the EOM any length between the two is accepted
+            lo = hi = want
+            ps_ = [s_ for s_ in ch["sl"] if s_["k"] == "p"]
+            if ch["eb"] and ps_:
+                du_ = ch["sl"][-1]["tf"]
+                lo = max(du_, ps_[-1]["tf"] + min(ps_[-1]["fs"], ps_[-1]["fe"]))
+                hi = max(du_, ps_[-1]["tf"] + max(ps_[-1]["fs"], ps_[-1]["fe"]))
+            if not (lo <= got <= hi):
                 out.append(("C14.ModSampling", {"clause": "length", "ch": names[i], "expected": want,
                                                 "got": got, "plain_len": ch["du"]}))
                 break
